@@ -95,7 +95,8 @@ func VxArbVal(name string) interface{} {
 // striped counters and the seed are free. The construction states the
 // representation invariant of DESIGN.md §2.9 (own arithmetic, not the code's
 // helpers). Returns the map and its abstract content.
-func vxArbMap(tableLen, chain, minLen int) (*Map, *vxContent) {
+func vxArbMap(tableLen, chain, minLen int, opts ...int) (*Map, *vxContent) {
+	forced := len(opts) > 0 && opts[0] == 1 // every slot concretely occupied
 	m := &Map{}
 	m.resizeCond = *sync.NewCond(&m.resizeMu)
 	m.minTableLen = minLen
@@ -112,7 +113,7 @@ func vxArbMap(tableLen, chain, minLen int) (*Map, *vxContent) {
 		for ci := 0; ci < chain; ci++ {
 			var th uint64
 			for s := 0; s < entriesPerMapBucket; s++ {
-				if VxBool("occ") {
+				if forced || VxBool("occ") {
 					k := new(string)
 					*k = VxStr("pk")
 					v := new(interface{})
